@@ -7,9 +7,19 @@ extension (built at check time; its ``PyInit`` writes a sentinel) and ``.pyc``-o
 
 * static part: every loader option combination that excludes inspection, through ``griffe.load`` and through
   the command line (``dump -X`` in-process via ``_griffe.cli.main`` and as a real ``python -m griffe``
-  subprocess run under the same witnesses);
+  subprocess run under the same witnesses); and the same packages through every other public entry point and
+  option-forwarding layer that loads code: ``GriffeLoader`` used directly (single loads and sessions of several
+  loads + one alias resolution), ``griffe.temporary_visited_package``, ``griffe.load_git`` on a throw-away
+  Git repository built from the tree (compiled and sourceless modules tracked; two commits, tag, branch with
+  a slash, ``HEAD~1``; package also "installed" on ``sys.path`` or not), ``griffe check -X`` (two versions
+  loaded through ``load_git`` / ``load``) in-process and as a subprocess, ``dump`` of several packages at
+  once, and loads in which only Python's import path (not the search path) leads to the package;
 * fault part (inspection allowed / forced): the k-th module of a package raises, exits, is interrupted,
-  rebinds ``sys.path`` and raises, or imports a missing dependency, for every k; plus "module not found".
+  rebinds ``sys.path`` and raises, or imports a missing dependency, for every k; plus "module not found"; the fault packages are loaded through ``griffe.load``, a ``GriffeLoader`` and
+  ``griffe.load_git`` in rotation.
+
+Temporary directories created by the code under test (Git worktrees, temporary packages) are placed below the
+watched directory prefix (``TMPDIR``), so that code run from a worktree is attributed to the analysed tree.
 
 Witnesses: audit hook (``import`` / ``exec``), ``sys.monitoring`` PY_START, sentinel files, state snapshots.
 """
@@ -44,22 +54,36 @@ RULE = ("static part: seeded packages (regular / namespace / single-file layouts
         "import-time side effects; each package is loaded with ALL 96 combinations resolve_aliases x resolve_external "
         "{None,True,False} x resolve_implicit x submodules x find_stubs_package x store_source under "
         "allow_inspection=False (objspec form and search-path mode rotate), with all 24 `dump -X` flag combinations "
-        "in-process and a rotating pair of them as real `python -m griffe` subprocesses; fault part: for every module "
+        "in-process and a rotating pair of them as real `python -m griffe` subprocesses; per package additionally (rotating "
+        "through the option spaces so that consecutive packages cover them completely): 24+3 GriffeLoader loads / "
+        "sessions, 12 temporary_visited_package loads, 6 griffe.load_git loads (48 option sets x objspec form x ref "
+        "{HEAD, tag, branch with slash, HEAD~1} x repo as str/Path x package importable or not; targets also the external "
+        "and private-sibling modules) on a two-commit repository that tracks the compiled files, 3+1 `griffe check -X` "
+        "runs (against x base-ref x stubs x sys.path x style; in-process / subprocess), 2 multi-package dumps and 4 "
+        "loads whose search path cannot find the package although sys.path could; fault part: for every module "
         "index k of a generated package x {raise, sys.exit, KeyboardInterrupt, rebind sys.path + raise, missing "
-        "dependency} x {allow_inspection, force_inspection}, plus module-not-found variants. distinct = digest of "
+        "dependency} x {allow_inspection, force_inspection} (entry point rotating over griffe.load / GriffeLoader / "
+        "load_git), plus module-not-found variants. distinct = digest of "
         "(package files, option set / fault point); non-trivial = package with >= 3 modules one of which is compiled "
         "(static) or a fault that was really reached (its module's sentinel exists)")
 LEVEL_TEXT = ("The fault space (module index k x fault kind x inspection mode, and module-not-found variants) is enumerated "
               "completely for every generated package, and the static option space (96 API and 24 CLI combinations) is "
               "enumerated completely for every package; after each run the import path must be the same list object with "
               "the same contents and, when inspection is disallowed, no import/exec audit event, PY_START event, sentinel, "
-              "environment or sys.modules change may be attributable to the analysed tree. Packages are sampled (seeded).")
+              "environment or sys.modules change may be attributable to the analysed tree. Packages are sampled (seeded); the "
+              "option spaces of the further entry points (GriffeLoader, temporary_visited_package, load_git, `check`) are "
+              "rotated across packages rather than enumerated per package.")
 LEVEL_NOTE = ("trusted: CPython's audit events `import`/`exec` and sys.monitoring PY_START as witnesses of execution (each "
               "shard first proves on a really imported control package that all witnesses fire); faults are import-time "
               "faults of Python modules; option space limited to the documented loader parameters")
 TECHNIQUE = ("runtime monitoring: sys.addaudithook + sys.monitoring + sentinel files + interpreter-state snapshots around the "
-             "real loader/CLI, with enumerated import-time fault injection in generated packages")
+             "real loader/CLI/Git entry points, with enumerated import-time fault injection in generated packages")
 REQUIRED_COUNTERS = ["static_api_cases", "static_cli_inprocess_cases", "static_cli_subprocess_cases",
+                     "static_loader_cases", "static_tmp_package_cases", "static_git_api_cases",
+                     "static_cli_check_inprocess_cases", "static_cli_check_subprocess_cases", "static_split_path_cases",
+                     "git_ref_with_compiled_module_loaded_statically", "cli_check_compared_two_versions",
+                     "cli_check_on_refs_with_compiled_module", "tmp_package_loaded_statically",
+                     "fault_point_reached[git]", "fault_point_reached[loader]",
                      "audit_witness_consulted", "py_start_witness_consulted", "sentinel_dirs_checked",
                      "state_snapshots_compared", "sys_path_identity_checked", "fault_cases", "fault_point_reached",
                      "not_found_cases", "control_audit_import_fired", "control_audit_exec_fired",
@@ -89,9 +113,29 @@ CLI_OPTIONS = [
     {"resolve_aliases": ra, "resolve_external": re_, "resolve_implicit": ri, "find_stubs_package": st}
     for ra, re_, ri, st in itertools.product([False, True], [None, True, False], [False, True], [False, True])
 ]
+GIT_OPTIONS = [
+    {"resolve_aliases": ra, "resolve_external": re_, "resolve_implicit": ri, "submodules": sub, "find_stubs_package": st}
+    for ra, re_, ri, sub, st in itertools.product([False, True], [None, True, False], [False, True], [True, False],
+                                                  [False, True])
+]
+TMP_OPTIONS = [
+    {"resolve_aliases": ra, "resolve_external": re_, "resolve_implicit": ri, "store_source": src}
+    for ra, re_, ri, src in itertools.product([True, False], [True, None, False], [False, True], [True, False])
+]
 FORMS = ["name", "dotted", "path", "abs-str"]
 PATH_MODES = ["search_paths", "sys_path"]
+GIT_REFS = ["HEAD", "v0.1.0", "release/next", "HEAD~1"]   # the tag and HEAD~1 are the older commit
+GIT_FORMS = ["name", "dotted", "relpath"]
+CHECK_AGAINST = [None, "v0.1.0", "HEAD~1"]                  # None: `griffe check` picks the latest tag itself
+CHECK_BASE = [None, "HEAD", "release/next"]                 # None: the new version is loaded from the working tree
+CHECK_STYLES = [None, "oneline", "verbose", "markdown", "github"]
+INPROCESS = ("api", "api-loader", "api-tmp", "api-git", "cli", "cli-check")
+COUNTER_OF = {"api": "static_api_cases", "api-loader": "static_loader_cases", "api-tmp": "static_tmp_package_cases",
+              "api-git": "static_git_api_cases", "cli": "static_cli_inprocess_cases",
+              "cli-check": "static_cli_check_inprocess_cases", "cli-subprocess": "static_cli_subprocess_cases",
+              "cli-check-subprocess": "static_cli_check_subprocess_cases"}
 FAULT_KINDS = ["raise", "exit", "interrupt", "rebind", "missing"]
+FAULT_ENTRIES = ["load", "loader", "load", "git", "load", "loader", "load"]   # entry point through which a fault case is loaded
 
 
 def opt_key(o: dict) -> str:
@@ -117,6 +161,27 @@ def cli_flags(o: dict, extra: int) -> list[str]:
     if extra % 5 == 2:
         flags.append("-S")
     return flags
+
+
+def check_flags(c: int) -> tuple[list[str], dict]:
+    """Flags of one `griffe check -X` invocation (c enumerates against x base x stubs x sys.path x style)."""
+    against, base = CHECK_AGAINST[c % 3], CHECK_BASE[(c // 3) % 3]
+    style = CHECK_STYLES[c % 5]
+    flags = ["-X", "-s", "sp"]
+    if against:
+        flags += ["-a", against]
+    if base:
+        flags += ["-b", base]
+    if (c // 9) % 2 or c % 2:
+        flags.append("-B")
+    if c % 4 == 1:
+        flags.append("-y")
+    if style:
+        flags += ["-f", style]
+    elif c % 7 == 3:
+        flags.append("-v")
+    return flags, {"against": against, "base_ref": base, "find_stubs_package": "-B" in flags, "append_sys_path": "-y" in flags,
+                   "style": style}
 
 
 # ------------------------------------------------------------------------------------------
@@ -309,7 +374,8 @@ class Tree:
         self.sp = os.path.join(self.root, "sp")
         self.alt = os.path.join(self.root, "alt")
         self.work = os.path.join(self.root, "build")
-        for d in (self.sent, self.sp, self.alt, self.work):
+        self.empty = os.path.join(self.root, "empty")   # a search path in which nothing can be found
+        for d in (self.sent, self.sp, self.alt, self.work, self.empty):
             os.makedirs(d)
         self.fixture = set()
         for rel, text in pkg["files"].items():
@@ -337,6 +403,47 @@ class Tree:
         with open(p, "wb") as fh:
             fh.write(data)
 
+    def ensure_repo(self, pkg: dict, history: bool = True) -> None:
+        """Make the tree a throw-away Git repository in which everything under sp/ and alt/ is tracked (compiled and
+        sourceless modules included).  With ``history`` there are two commits: the older one (tag ``v0.1.0``,
+        ``HEAD~1``) differs from the newer one (``main``, ``release/next``, the working tree) in the signature of every
+        generated ``f<stem>`` function, so that `griffe check` has something to report when it really loaded both."""
+        from vf.mon import gitstate
+
+        gitstate.export_env()
+        if os.path.isdir(os.path.join(self.root, ".git")):
+            return
+        git = gitstate.git
+        git(self.root, "init", "-q", ".")
+        tracked = [d for d in ("sp", "alt") if os.listdir(os.path.join(self.root, d))]
+        if history:
+            top = pkg["top"]
+            olds = {}
+            for rel in self.listing:
+                if rel.endswith(".py") and (rel.startswith(f"sp/{top}/") or rel == f"sp/{top}.py"):
+                    p = os.path.join(self.root, rel)
+                    with open(p, encoding="utf8") as fh:
+                        text = fh.read()
+                    new = re.sub(r"def (f\w+)\(x: int = ", r"def \1(vf_old_param, x: int = ", text)
+                    if new != text:
+                        olds[p] = text
+                        with open(p, "w", encoding="utf8") as fh:
+                            fh.write(new)
+            git(self.root, "add", "-A", "-f", "--", *tracked)
+            git(self.root, "commit", "-q", "--allow-empty", "-m", "old", date=gitstate.EPOCH)
+            git(self.root, "tag", "v0.1.0", date=gitstate.EPOCH + 1)
+            for p, text in olds.items():
+                with open(p, "w", encoding="utf8") as fh:
+                    fh.write(text)
+        git(self.root, "add", "-A", "-f", "--", *tracked)
+        git(self.root, "commit", "-q", "--allow-empty", "-m", "new", date=gitstate.EPOCH + 1000)
+        git(self.root, "branch", "release/next")
+
+    def git_refs(self) -> list[str]:
+        from vf.mon import gitstate
+
+        return sorted(gitstate.git(self.root, "for-each-ref", "--format=%(refname)").split())
+
     def snapshot(self) -> list[str]:
         out = []
         for base in (self.sp, self.alt):
@@ -359,28 +466,138 @@ class Ctx:
     def __init__(self, rec) -> None:  # noqa: ANN001
         self.rec = rec
         self.base = os.path.realpath(tempfile.mkdtemp(prefix="vf-c15-"))
+        # Temporary directories made by the code under test (Git worktrees of load_git, the packages of
+        # temporary_visited_package) are placed below the watched prefix, so that code executed from them is
+        # attributed to the analysed tree by the exec / PY_START witnesses as well (trees themselves pass dir=base).
+        self.tmp = os.path.join(self.base, "tmp")
+        os.makedirs(self.tmp)
+        self.old_tmpdir = os.environ.get("TMPDIR")
+        os.environ["TMPDIR"] = self.tmp
+        tempfile.tempdir = self.tmp
         self.witness = ExecWitness()
         self.witness.install(self.base)
+
+    def close(self) -> None:
+        tempfile.tempdir = None
+        if os.environ.get("TMPDIR") == self.tmp:
+            if self.old_tmpdir is None:
+                del os.environ["TMPDIR"]
+            else:
+                os.environ["TMPDIR"] = self.old_tmpdir
+        shutil.rmtree(self.base, ignore_errors=True)
 
 
 # ------------------------------------------------------------------------------------------
 # running one case
+def objspec_for(tree: Tree, pkg: dict, target: str, form: str) -> object:
+    if form == "dotted" and target == pkg["top"]:
+        return pkg.get("dotted", target)
+    if form == "path" and target == pkg["top"] and pkg.get("layout") != "single":
+        return Path(tree.sp, target)
+    if form == "abs-str" and target == pkg["top"] and pkg.get("layout") != "single":
+        return os.path.join(tree.sp, target)
+    return target
+
+
+def path_kw(tree: Tree, path_mode: str) -> dict:
+    """search_paths: the tree / nothing (the loader then uses sys.path, which holds the tree) / `split`: a directory
+    in which nothing can be found while the tree is importable through sys.path (finder fails, Python would succeed)."""
+    if path_mode == "search_paths":
+        return {"search_paths": [tree.sp]}
+    if path_mode == "split":
+        return {"search_paths": [tree.empty]}
+    return {}
+
+
 def call_api(tree: Tree, pkg: dict, target: str, form: str, path_mode: str, options: dict, inspection: dict):
     import griffe
 
-    if form == "dotted" and target == pkg["top"]:
-        objspec: object = pkg.get("dotted", target)
-    elif form == "path" and target == pkg["top"] and pkg.get("layout") != "single":
-        objspec = Path(tree.sp, target)
-    elif form == "abs-str" and target == pkg["top"] and pkg.get("layout") != "single":
-        objspec = os.path.join(tree.sp, target)
-    else:
-        objspec = target
     kw = dict(options)
     kw.update(inspection)
-    if path_mode == "search_paths":
-        kw["search_paths"] = [tree.sp]
-    return griffe.load(objspec, **kw)
+    kw.update(path_kw(tree, path_mode))
+    return griffe.load(objspec_for(tree, pkg, target, form), **kw)
+
+
+def call_loader(tree: Tree, pkg: dict, case: dict, inspection: dict):
+    """One GriffeLoader used the way the command line uses it: several loads, then one alias resolution."""
+    import griffe
+
+    o = case["options"]
+    kw = {"store_source": o.get("store_source", True), **inspection, **path_kw(tree, case["path_mode"])}
+    loader = griffe.GriffeLoader(**kw)
+    result, errors = None, []
+    for target in case["targets"]:
+        try:
+            r = loader.load(objspec_for(tree, pkg, target, case["form"]), submodules=o.get("submodules", True),
+                            find_stubs_package=o.get("find_stubs_package", False))
+            result = r if result is None else result
+        except Exception as exc:  # noqa: BLE001
+            if type(exc).__name__ in ("CaseTimeout", "StepBudgetExceeded") or len(case["targets"]) == 1:
+                raise
+            errors.append(type(exc).__name__)
+    if o.get("resolve_aliases"):
+        loader.resolve_aliases(implicit=o["resolve_implicit"], external=o["resolve_external"])
+    loader.stats()
+    return result, "returned" + ("".join(" +" + e for e in sorted(set(errors))))
+
+
+def tmp_modules(tree: Tree, pkg: dict) -> dict:
+    """The Python/stub sources of the top package as the `modules` argument of griffe.temporary_visited_package."""
+    top = pkg["top"]
+    if pkg.get("layout") == "single":
+        return {"__init__.py": tree._subst(pkg["files"][f"sp/{top}.py"])}
+    pre = f"sp/{top}/"
+    return {rel[len(pre):]: tree._subst(text) for rel, text in pkg["files"].items()
+            if rel.startswith(pre) and rel.endswith((".py", ".pyi"))}
+
+
+def call_tmp_package(tree: Tree, pkg: dict, case: dict):
+    """griffe.temporary_visited_package: the Python/stub sources of the package are written to a directory of griffe's
+    own and loaded from there (the external packages and the private sibling stay importable through sys.path only)."""
+    import griffe
+
+    o = case["options"]
+    mods = tmp_modules(tree, pkg)
+    kw = {k: o[k] for k in ("resolve_aliases", "resolve_external", "resolve_implicit", "store_source")}
+    if case.get("explicit", True):
+        kw["allow_inspection"] = False   # otherwise the documented default (False) is relied upon
+    with griffe.temporary_visited_package(pkg["top"], mods, init="__init__.py" in mods, **kw) as module:
+        return module
+
+
+def call_git(tree: Tree, pkg: dict, case: dict, inspection: dict):
+    """griffe.load_git on the throw-away repository built from the tree (search paths relative to the worktree)."""
+    import griffe
+
+    target, form = case["target"], case["form"]
+    if target == pkg["top"] and form == "dotted":
+        objspec: object = pkg.get("dotted", target)
+    elif target == pkg["top"] and form == "relpath" and pkg.get("layout") != "single":
+        objspec = Path("sp", target)
+    else:
+        objspec = target
+    repo = Path(tree.root) if case.get("repo_as") == "Path" else tree.root
+    sp = [Path("sp")] if case.get("repo_as") == "Path" else ["sp"]
+    return griffe.load_git(objspec, ref=case["ref"], repo=repo, search_paths=sp, **case["options"], **inspection)
+
+
+def call_cli(argv: list[str]) -> str:
+    """`griffe <argv>` in-process; the streams the command may wrap (colorama) are the harness's own throw-aways."""
+    import contextlib
+    import io
+
+    from _griffe import cli
+
+    sink = io.StringIO()
+    try:
+        with contextlib.redirect_stdout(sink), contextlib.redirect_stderr(sink):
+            try:
+                return f"exit {cli.main(argv)}"
+            finally:
+                if "colorama" in sys.modules:
+                    sys.modules["colorama"].deinit()
+    except SystemExit as exc:
+        return f"SystemExit {exc.code}"
 
 
 def walk_modules(obj, seen=None):  # noqa: ANN001
@@ -394,15 +611,42 @@ def walk_modules(obj, seen=None):  # noqa: ANN001
             yield from walk_modules(m, seen)
 
 
+def run_inprocess(tree: Tree, pkg: dict, case: dict):
+    """(result tree or None, outcome text) of one in-process entry point with inspection disallowed."""
+    via = case["via"]
+    static = {"allow_inspection": False}
+    if via == "api":
+        return call_api(tree, pkg, case["target"], case["form"], case["path_mode"], case["options"], static), "returned"
+    if via == "api-loader":
+        return call_loader(tree, pkg, case, static)
+    if via == "api-tmp":
+        return call_tmp_package(tree, pkg, case), "returned"
+    if via == "api-git":
+        return call_git(tree, pkg, case, static), "returned"
+    if via == "cli":
+        return None, call_cli(["dump", *case["flags"], "-s", tree.sp, "-o", os.path.join(tree.work, "dump.json"),
+                               case["target"], *case.get("extra_targets", [])])
+    if via == "cli-check":
+        return None, call_cli(["check", *case["flags"], case["target"]])
+    raise ValueError(via)
+
+
 def run_static_case(ctx: Ctx, tree: Tree, pkg: dict, case: dict, dig: str) -> bool:  # noqa: C901, PLR0912, PLR0915
     """One load with inspection disallowed under all witnesses. Returns True when the case held."""
     rec = ctx.rec
     via = case["via"]
     owned = set(pkg["owned"])
     inserted = False
-    if case.get("path_mode") == "sys_path" and via == "api":
-        sys.path.insert(0, tree.sp)  # the user's own sys.path entry, set before the snapshot
+    uses_git = via in ("api-git", "cli-check", "cli-check-subprocess")
+    if uses_git:
+        tree.ensure_repo(pkg)
+        refs_before = tree.git_refs()
+    if via in INPROCESS and (case.get("path_mode") in ("sys_path", "split") or case.get("installed") or via == "api-tmp"):
+        sys.path.insert(0, tree.sp)  # the user's own sys.path entry (package importable), set before the snapshot
         inserted = True
+    cwd = os.getcwd()
+    if via == "cli-check":
+        os.chdir(tree.root)          # `griffe check` is run from the repository root (relative search path)
     os.environ["VF_C15_SENT"] = tree.sent
     snap = StateSnapshot()
     outcome = "returned"
@@ -410,24 +654,10 @@ def run_static_case(ctx: Ctx, tree: Tree, pkg: dict, case: dict, dig: str) -> bo
     sub_doc = None
     try:
         with case_watchdog(120):
-            if via == "api":
+            if via in INPROCESS:
                 ctx.witness.arm(owned)
                 try:
-                    result = call_api(tree, pkg, case["target"], case["form"], case["path_mode"], case["options"],
-                                      {"allow_inspection": False})
-                except BaseException as exc:  # noqa: BLE001
-                    if type(exc).__name__ in ("CaseTimeout", "StepBudgetExceeded"):
-                        raise
-                    outcome = type(exc).__name__
-                finally:
-                    seen = ctx.witness.disarm()
-            elif via == "cli":
-                from _griffe import cli
-
-                argv = ["dump", *case["flags"], "-s", tree.sp, "-o", os.path.join(tree.work, "dump.json"), case["target"]]
-                ctx.witness.arm(owned)
-                try:
-                    outcome = f"exit {cli.main(argv)}"
+                    result, outcome = run_inprocess(tree, pkg, case)
                 except BaseException as exc:  # noqa: BLE001
                     if type(exc).__name__ in ("CaseTimeout", "StepBudgetExceeded"):
                         raise
@@ -436,10 +666,14 @@ def run_static_case(ctx: Ctx, tree: Tree, pkg: dict, case: dict, dig: str) -> bo
                     seen = ctx.witness.disarm()
             else:  # real `python -m griffe` subprocess under the same witnesses
                 out = os.path.join(tree.work, "boot.json")
-                argv = [sys.executable, "-m", "vf.mon.c15boot", out, ctx.base, ",".join(sorted(owned)), "--",
-                        "dump", *case["flags"], "-s", tree.sp, "-o", os.path.join(tree.work, "dump.json"), case["target"]]
+                if via == "cli-check-subprocess":
+                    args, where = ["check", *case["flags"], case["target"]], tree.root
+                else:
+                    args, where = ["dump", *case["flags"], "-s", tree.sp, "-o", os.path.join(tree.work, "dump.json"),
+                                   case["target"]], tree.work
+                argv = [sys.executable, "-m", "vf.mon.c15boot", out, ctx.base, ",".join(sorted(owned)), "--", *args]
                 env = dict(os.environ)
-                proc = subprocess.run(argv, env=env, capture_output=True, check=False, cwd=tree.work, timeout=300,
+                proc = subprocess.run(argv, env=env, capture_output=True, check=False, cwd=where, timeout=300,
                                       stdin=subprocess.DEVNULL)
                 if not os.path.exists(out):
                     rec.inconclusive(case, f"CLI subprocess wrote no observation file rc={proc.returncode}: "
@@ -453,6 +687,9 @@ def run_static_case(ctx: Ctx, tree: Tree, pkg: dict, case: dict, dig: str) -> bo
                     return True
                 seen = sub_doc["witness"]
                 outcome = f"exit {sub_doc['exit']}" if sub_doc["error"] is None else sub_doc["error"]
+    except BaseException:
+        os.chdir(cwd)
+        raise
     finally:
         ctx.witness.armed = False
     problems = []
@@ -481,12 +718,12 @@ def run_static_case(ctx: Ctx, tree: Tree, pkg: dict, case: dict, dig: str) -> bo
     rec.count(f"py_start_events[{klass}]", len(seen["py_starts"]))
     rec.add_to_set(f"outcomes[{klass}]", outcome.split(":")[0][:60])
     # what the returned tree says about compiled modules / external packages (evidence, not verdict)
+    names = {os.path.basename(n) for n in pkg["native"]} | {os.path.basename(n)[:-4] for n in pkg["pyc"]}
     if result is not None:
         try:
             coll = result.modules_collection
             if any(o in coll for o in pkg["others"]):
                 rec.count("external_packages_loaded_statically")
-            names = {os.path.basename(n) for n in pkg["native"]} | {os.path.basename(n)[:-4] for n in pkg["pyc"]}
             if names:
                 rec.count("compiled_module_present_in_tree")
                 top = coll[pkg["top"]] if pkg["top"] in coll else None
@@ -494,11 +731,33 @@ def run_static_case(ctx: Ctx, tree: Tree, pkg: dict, case: dict, dig: str) -> bo
                     rec.count("compiled_module_appears_as_member")
                 else:
                     rec.count("compiled_module_skipped_in_result")
+                    if via == "api-git" and top is not None:
+                        rec.count("git_ref_with_compiled_module_loaded_statically")
         except Exception:  # noqa: BLE001, S110
             pass
+    if via == "api-tmp" and result is not None:
+        rec.count("tmp_package_loaded_statically")
+    if case.get("path_mode") == "split":
+        rec.count("static_split_path_cases")
+        if outcome != "ModuleNotFoundError" and len(case.get("targets", [0])) == 1:
+            problems.append(f"the finder cannot locate {case.get('target') or case.get('targets')} in the given search path "
+                            f"(only Python's own import path could): expected ModuleNotFoundError, got {outcome}")
+    if via in ("cli-check", "cli-check-subprocess"):
+        if outcome == "exit 1":
+            rec.count("cli_check_compared_two_versions")   # breakages were reported: both versions were really loaded
+            if names:
+                rec.count("cli_check_on_refs_with_compiled_module")
+        elif outcome == "exit 0":
+            rec.count("cli_check_found_no_difference")
+    if uses_git:
+        # harness-side sanity (the exact clean-up contract is C20's): judged cases must start from the same repository
+        if tree.git_refs() != refs_before:
+            rec.count("git_refs_left_behind_by_load")
     # harness hygiene, after judgement
     tree.clear_sentinels()
     snap.restore(owned)
+    if os.getcwd() != cwd:
+        os.chdir(cwd)
     if inserted:
         try:
             sys.path.remove(tree.sp)
@@ -508,43 +767,97 @@ def run_static_case(ctx: Ctx, tree: Tree, pkg: dict, case: dict, dig: str) -> bo
         rec.fail(case, problems[0], observed={"all": problems[:8], "outcome": outcome, "witness": {k: v if isinstance(v, int) else v[:8] for k, v in seen.items()}},
                  expected="no execution, no state change", nontrivial=pkg.get("nontrivial", False), tags=(klass,))
         return False
-    rec.count({"api": "static_api_cases", "cli": "static_cli_inprocess_cases", "cli-subprocess": "static_cli_subprocess_cases"}[via])
+    rec.count(COUNTER_OF[via])
     rec.ok(case, nontrivial=pkg.get("nontrivial", False), tags=(klass,), dig=dig)
     return True
 
 
-def static_cases_for(pkg: dict, pidx: int, n_sub: int):
-    """(case without the package literal, digest suffix) for every enumerated option set."""
+DEFAULT_PLAN = {"subprocess_per_pkg": 2, "loader_per_pkg": 24, "tmp_per_pkg": 12, "git_per_pkg": 6, "check_per_pkg": 3,
+                "check_subprocess_per_pkg": 1}
+
+
+def static_cases_for(pkg: dict, pidx: int, plan: dict):  # noqa: C901, PLR0912
+    """Every enumerated (entry point, option set) of one package, without the package literal."""
     top = pkg["top"]
+    others = pkg["others"]
+    absent = f"vf_c15_absent_{top}"
+    plan = {**DEFAULT_PLAN, **plan}
+    # griffe.load: all 96 option sets
     for i, o in enumerate(API_OPTIONS):
         v = i + pidx
         yield {"kind": "static", "via": "api", "target": top, "options": o, "form": FORMS[v % 4],
                "path_mode": PATH_MODES[(v // 4) % 2]}
-    for j, other in enumerate(pkg["others"] + [f"vf_c15_absent_{top}"]):
+    for j, other in enumerate(others + [absent]):
         for i in (0, 17, 42, 95):
             yield {"kind": "static", "via": "api", "target": other, "options": API_OPTIONS[(i + j) % 96], "form": "name",
                    "path_mode": PATH_MODES[(i + j) % 2]}
+    # griffe.load / GriffeLoader where only Python's own import path (not the search path) leads to the package
+    for j, target in enumerate([top, *others]):
+        yield {"kind": "static", "via": "api" if (j + pidx) % 2 else "api-loader", "target": target, "targets": [target],
+               "options": API_OPTIONS[(31 * (pidx + j)) % 96], "form": "name", "path_mode": "split"}
+    # GriffeLoader used directly: a rotating part of the 96 option sets, plus sessions (several loads, one resolution)
+    n = plan["loader_per_pkg"]
+    for s in range(n):
+        i = (pidx * n + s) * 5 % 96
+        yield {"kind": "static", "via": "api-loader", "targets": [top], "options": API_OPTIONS[i], "form": FORMS[(s + pidx) % 4],
+               "path_mode": PATH_MODES[(s // 4 + pidx) % 2]}
+    for s, i in enumerate((7, 52, 90)):
+        order = [top, *others, absent] if s != 1 else [absent, *reversed(others), top]
+        yield {"kind": "static", "via": "api-loader", "targets": order, "options": API_OPTIONS[(i + pidx * 13) % 96],
+               "form": "name", "path_mode": PATH_MODES[(s + pidx) % 2]}
+    # griffe.temporary_visited_package
+    n = plan["tmp_per_pkg"]
+    for s in range(n):
+        i = (pidx * n + s) * 5 % 24
+        yield {"kind": "static", "via": "api-tmp", "target": top, "options": TMP_OPTIONS[i], "explicit": bool((s + pidx) % 3)}
+    # command line: dump
     for i, o in enumerate(CLI_OPTIONS):
         yield {"kind": "static", "via": "cli", "target": top, "options": o, "flags": cli_flags(o, i + pidx)}
-    for s in range(n_sub):
-        i = (pidx * n_sub + s) * 7 % 24
+    for i in (3 + pidx) % 24, (14 + pidx * 5) % 24:
+        yield {"kind": "static", "via": "cli", "target": top, "extra_targets": [*others, absent], "options": CLI_OPTIONS[i],
+               "flags": cli_flags(CLI_OPTIONS[i], i)}
+    for s in range(plan["subprocess_per_pkg"]):
+        i = (pidx * plan["subprocess_per_pkg"] + s) * 7 % 24
         yield {"kind": "static", "via": "cli-subprocess", "target": top, "options": CLI_OPTIONS[i],
                "flags": cli_flags(CLI_OPTIONS[i], i)}
+    # griffe.load_git on the repository built from the tree
+    n = plan["git_per_pkg"]
+    for s in range(n):
+        g = pidx * n + s
+        target = top if g % 5 != 4 or not others else others[(g // 5) % len(others)]
+        yield {"kind": "static", "via": "api-git", "target": target, "options": GIT_OPTIONS[g * 11 % 48],
+               "form": GIT_FORMS[(g + g // 48) % 3] if target == top else "name", "ref": GIT_REFS[(g // 3 + g // 48) % 4],
+               "repo_as": ("str", "Path")[(g // 2 + g // 48) % 2], "installed": bool((g // 4 + g // 96) % 2)}
+    # command line: check (two versions, loaded through load_git / load)
+    n = plan["check_per_pkg"]
+    for s in range(n):
+        c = pidx * n + s
+        flags, opts = check_flags(c)
+        yield {"kind": "static", "via": "cli-check", "target": top, "options": opts, "flags": flags, "installed": bool(c % 2)}
+    n = plan["check_subprocess_per_pkg"]
+    for s in range(n):
+        c = (pidx * n + s) * 4 + 1
+        flags, opts = check_flags(c)
+        yield {"kind": "static", "via": "cli-check-subprocess", "target": top, "options": opts, "flags": flags}
 
 
-def run_static_package(ctx: Ctx, pkg: dict, pidx: int, n_sub: int) -> None:
+def case_key(c: dict) -> str:
+    return "|".join(str(c.get(k, "")) for k in ("via", "target", "targets", "extra_targets", "form", "path_mode", "flags",
+                                                "ref", "repo_as", "installed", "explicit")) + "|" + opt_key(c["options"])
+
+
+def run_static_package(ctx: Ctx, pkg: dict, pidx: int, plan: dict) -> None:
     rec = ctx.rec
     tree = Tree(pkg, ctx.base)
     for f in tree.fixture:
         rec.add_to_set("compiled_fixture", f)
     pdig = digest({k: pkg[k] for k in ("files", "pyc", "native")})
     try:
-        for c in static_cases_for(pkg, pidx, n_sub):
-            key = c["via"] + ":" + c["target"] + ":" + opt_key(c["options"]) + ":" + c.get("form", "") + c.get("path_mode", "") + " ".join(c.get("flags", []))
+        for c in static_cases_for(pkg, pidx, plan):
             rec.add_to_set("option_sets_" + c["via"].replace("-", "_"), opt_key(c["options"]))
             case = dict(c)
             case["pkg"] = pkg
-            run_static_case(ctx, tree, pkg, case, digest(pdig + key))
+            run_static_case(ctx, tree, pkg, case, digest(pdig + case_key(c)))
         after = tree.snapshot()
         rec.count("tree_listings_compared")
         if after != tree.listing:
@@ -575,8 +888,11 @@ def run_fault_case(ctx: Ctx, case: dict) -> None:  # noqa: C901, PLR0912
     tree = Tree(pkg, ctx.base) if pkg else None
     owned = set(pkg["owned"]) if pkg else {case["target"].split(".")[0]}
     inserted = False
+    entry = case.get("entry", "load")
     if tree:
         os.environ["VF_C15_SENT"] = tree.sent
+        if entry == "git":
+            tree.ensure_repo(pkg, history=False)
         if case["path_mode"] == "sys_path":
             sys.path.insert(0, tree.sp)  # the user's own entry, part of the state that must be preserved
             inserted = True
@@ -586,7 +902,12 @@ def run_fault_case(ctx: Ctx, case: dict) -> None:  # noqa: C901, PLR0912
         with case_watchdog(120):
             ctx.witness.arm(owned)
             try:
-                if tree:
+                if tree and entry == "git":
+                    call_git(tree, pkg, {"target": pkg["top"], "form": "name", "ref": "HEAD", "options": {}}, inspection)
+                elif tree and entry == "loader":
+                    call_loader(tree, pkg, {"targets": [pkg["top"]], "form": "name", "path_mode": case["path_mode"],
+                                            "options": {}}, inspection)
+                elif tree:
                     call_api(tree, pkg, pkg["top"], "name", case["path_mode"], {}, inspection)
                 else:
                     kw = dict(inspection)
@@ -619,8 +940,10 @@ def run_fault_case(ctx: Ctx, case: dict) -> None:  # noqa: C901, PLR0912
     if tree:
         reached = ("py-" + pkg["fault_module"]) in tree.sentinels()
         rec.count("fault_cases")
+        rec.count(f"fault_cases[{entry}]")
         if reached:
             rec.count("fault_point_reached")
+            rec.count(f"fault_point_reached[{entry}]")
         rec.count("audit_exec_events_under_inspection", len(seen["execs"]))
         rec.count("audit_import_events[fault]", len(seen["imports"]))
         rec.count("py_start_events[fault]", len(seen["py_starts"]))
@@ -655,7 +978,8 @@ def fault_cases(rng: random.Random, tag: str, n_pkgs: int):
                     trigger = "pyc" if (k > 1 or serial % 2) else "native"
                     pkg = gen_fault_pkg(random.Random(seed), f"{tag}_{serial}", n, k, kind, trigger)
                     yield {"kind": "fault", "mode": mode, "fault": {"kind": kind, "k": k}, "trigger": trigger,
-                           "path_mode": PATH_MODES[serial % 2], "pkg": pkg}
+                           "path_mode": PATH_MODES[serial % 2], "entry": FAULT_ENTRIES[(serial // 2) % len(FAULT_ENTRIES)],
+                           "pkg": pkg}
     for target in (f"vf_c15_nowhere_{tag}", f"vf_c15_nowhere_{tag}.sub.mod"):
         for mode in ("allow", "force"):
             for pm in PATH_MODES:
@@ -714,8 +1038,8 @@ def run_control(ctx: Ctx, rng: random.Random, tag: str) -> None:
 # ------------------------------------------------------------------------------------------
 def shards(tier: str, seed: int) -> list[dict]:  # noqa: ARG001
     if tier == "quick":
-        return [{"packages": 3, "fault_pkgs": 1, "subprocess_per_pkg": 2} for _ in range(16)]
-    return [{"packages": 32, "fault_pkgs": 6, "subprocess_per_pkg": 2} for _ in range(32)]
+        return [{"packages": 3, "fault_pkgs": 1, "plan": dict(DEFAULT_PLAN)} for _ in range(16)]
+    return [{"packages": 32, "fault_pkgs": 6, "plan": dict(DEFAULT_PLAN)} for _ in range(32)]
 
 
 def run_shard(spec: dict, rec) -> None:  # noqa: ANN001
@@ -726,12 +1050,12 @@ def run_shard(spec: dict, rec) -> None:  # noqa: ANN001
         run_control(ctx, rng, tag)
         for p in range(spec["packages"]):
             pkg = gen_static_pkg(rng, f"{tag}p{p}")
-            run_static_package(ctx, pkg, p + spec["shard"], spec["subprocess_per_pkg"])
+            run_static_package(ctx, pkg, p + spec["shard"] * spec["packages"], spec.get("plan", {}))
         for case in fault_cases(rng, tag, spec["fault_pkgs"]):
             run_fault_case(ctx, case)
         rec.maximum("audit_events_filtered_per_shard", ctx.witness.total_events)
     finally:
-        shutil.rmtree(ctx.base, ignore_errors=True)
+        ctx.close()
 
 
 def run_replay(inp: dict, rec) -> None:  # noqa: ANN001
@@ -749,7 +1073,7 @@ def run_replay(inp: dict, rec) -> None:  # noqa: ANN001
         else:
             rec.inconclusive(inp, "aggregate witness (tree listing); replay the individual static cases instead")
     finally:
-        shutil.rmtree(ctx.base, ignore_errors=True)
+        ctx.close()
 
 
 def run_pinned(findings: list[dict], rec) -> dict:  # noqa: ANN001
